@@ -458,7 +458,7 @@ fn c05(args: &Args, agg: &mut Aggregate) {
         let mut accepted_same = 0;
         for m in 0..n_mut {
             let mut f = file.clone();
-            let kind = match rng.below(10) {
+            let kind = match rng.below(12) {
                 0 | 1 | 2 => { let i = rng.below(f.len() as u64) as usize; let v = rng.range(1, 255) as u8; f[i] ^= v; if i < hl { "byte-header" } else if i < hl + 64 { "byte-hash-or-hmac" } else { "byte-blocks" } }
                 3 => { let k = rng.below(f.len() as u64) as usize; f.truncate(k); "truncate" }
                 4 => { // truncate at a block boundary (with and without terminator)
@@ -473,6 +473,17 @@ fn c05(args: &Args, agg: &mut Aggregate) {
                 7 => { let n = rng.range(1, 80) as usize; f.extend_from_slice(&rng.bytes(n)); "append-tail" }
                 8 => { // multi-byte edit inside the ciphertext
                     for _ in 0..rng.range(2, 16) { let i = hl + 64 + rng.below((f.len() - hl - 64) as u64) as usize; f[i] = rng.next() as u8; } "multi-byte-ciphertext" }
+                9 => { // two steps: the closing block removed and a byte of the (now last) data block altered
+                    let last_data = blocks.len().saturating_sub(2);
+                    let start = hl + 64 + blocks[..last_data].iter().map(|b| b.len()).sum::<usize>();
+                    f.truncate(hl + 64 + blocks[..blocks.len() - 1].iter().map(|b| b.len()).sum::<usize>());
+                    if blocks[last_data].len() > 36 && f.len() > start + 36 { let i = start + 36 + rng.below((f.len() - start - 36) as u64) as usize; f[i] ^= rng.range(1, 255) as u8; }
+                    "no-terminator-and-edit" }
+                10 => { // two steps: a tail appended and a byte of the last data block altered
+                    let last_data = blocks.len().saturating_sub(2);
+                    let start = hl + 64 + blocks[..last_data].iter().map(|b| b.len()).sum::<usize>();
+                    if blocks[last_data].len() > 36 { let i = start + 36 + rng.below((blocks[last_data].len() - 36) as u64) as usize; f[i] ^= rng.range(1, 255) as u8; }
+                    let n = rng.range(1, 80) as usize; f.extend_from_slice(&rng.bytes(n)); "edit-and-append" }
                 _ => { // swap the two 32-byte header check values, or zero one
                     if rng.chance(1, 2) { for j in 0..32 { f.swap(hl + j, hl + 32 + j); } } else { for j in 0..32 { f[hl + 32 + j] = 0; } } "check-values" }
             };
@@ -532,7 +543,7 @@ fn c05(args: &Args, agg: &mut Aggregate) {
         o.nontrivial = true;
         o
     });
-    write_report(args, agg, "small saved databases re-framed into 1..4 HMAC blocks x 60 (quick) / 400 (thorough) alterations made without the key: single-byte substitutions anywhere (header, hash, HMAC, block HMACs, lengths, ciphertext), truncation at any offset and at block boundaries with and without the terminator, block swap/duplication/removal, header edits with the SHA-256 recomputed, appended tails, multi-byte ciphertext edits, swapped/zeroed check values; plus 2 (quick) / 8 (thorough) tag sweeps per case (an authenticated byte altered, then one byte of the matching HMAC run through all 256 values); every mutant is opened with the right key (must fail or equal the original), every sixth is also decoded by the model and compared; each case is non-trivial; distinct = distinct file shape", serde_json::json!({"mutants_per_case": if exhaustive { 400 } else { 60 }}));
+    write_report(args, agg, "small saved databases re-framed into 1..4 HMAC blocks x 60 (quick) / 400 (thorough) alterations made without the key: single-byte substitutions anywhere (header, hash, HMAC, block HMACs, lengths, ciphertext), truncation at any offset and at block boundaries with and without the terminator, block swap/duplication/removal, header edits with the SHA-256 recomputed, appended tails, multi-byte ciphertext edits, swapped/zeroed check values, and two-step alterations (closing block removed + last data block edited; edit + appended tail); plus 2 (quick) / 8 (thorough) tag sweeps per case (an authenticated byte altered, then one byte of the matching HMAC run through all 256 values); every mutant is opened with the right key (must fail or equal the original), every sixth is also decoded by the model and compared; each case is non-trivial; distinct = distinct file shape", serde_json::json!({"mutants_per_case": if exhaustive { 400 } else { 60 }}));
 }
 
 // ---------------- C06: malformed input never panics ----------------
@@ -572,7 +583,7 @@ fn c06(args: &Args, agg: &mut Aggregate) {
         let els = base.creds.elements();
         let s = match strict::read(&base.bytes, &els) { Ok(s) => s, Err(w) => { o.violation = Some(format!("strict reader rejects: {}", w)); return o; } };
         let mut parts = Parts::of(&base.bytes, &s, &els);
-        let kind: &str = match rng.below(14) {
+        let kind: &str = match rng.below(17) {
             0 => { let i = rng.below(parts.fields.len() as u64) as usize; parts.fields.remove(i); "missing-header-field" }
             1 => { let i = rng.below(parts.fields.len() as u64) as usize; let f = parts.fields[i].clone(); parts.fields.push(f); "duplicate-header-field" }
             2 => { let i = rng.below(parts.fields.len() as u64) as usize; parts.fields[i].0 = *rng.pick(&[5u8, 6, 8, 9, 10, 12, 200]); "unknown-header-type" }
@@ -591,6 +602,42 @@ fn c06(args: &Args, agg: &mut Aggregate) {
                 let x2 = xml.replacen(a, b, 1);
                 let ih = parts.payload.len() - s.xml.len(); parts.payload.truncate(ih); parts.payload.extend_from_slice(x2.as_bytes()); "ill-typed-element-text" }
             9 => { parts.partition = vec![]; parts.terminator = false; "no-terminator" }
+            15 | 16 => { // the text of a randomly chosen leaf element replaced by text of a chosen BYTE length that
+                // contains a multi-byte character (parsers that slice by byte offsets), optionally with the
+                // lead character of the value's own syntax
+                let xml = s.xml.clone();
+                let mut spans: Vec<(usize, usize)> = Vec::new();
+                let mut i = 0;
+                while i < xml.len() {
+                    if xml[i] == b'>' {
+                        if let Some(j) = xml[i + 1..].iter().position(|&c| c == b'<') {
+                            let (st, en) = (i + 1, i + 1 + j);
+                            if en > st && en + 1 < xml.len() && xml[en + 1] == b'/' { spans.push((st, en)); }
+                            i = en;
+                            continue;
+                        }
+                    }
+                    i += 1;
+                }
+                if !spans.is_empty() {
+                    let (st, en) = spans[rng.below(spans.len() as u64) as usize];
+                    let target = rng.range(1, 12) as usize;
+                    let wide = *rng.pick(&["\u{e9}", "\u{20ac}", "\u{1F511}", "\u{661}", "\u{ff11}", "\u{2212}"]);
+                    let lead = *rng.pick(&["", "#", "-", "+", " "]);
+                    let mut t = String::from(lead);
+                    let at = rng.below(target as u64 + 1) as usize;
+                    let mut placed = false;
+                    while t.len() < target {
+                        if !placed && t.len() >= at && t.len() + wide.len() <= target { t.push_str(wide); placed = true; }
+                        else if t.len() + 1 <= target { t.push(*rng.pick(&['0', '1', 'a', 'F', '9'])); }
+                    }
+                    if !placed { t.push_str(wide); }
+                    let mut x2 = xml[..st].to_vec();
+                    x2.extend_from_slice(t.as_bytes());
+                    x2.extend_from_slice(&xml[en..]);
+                    let ih = parts.payload.len() - s.xml.len(); parts.payload.truncate(ih); parts.payload.extend_from_slice(&x2);
+                }
+                "leaf-text-multibyte" }
             10 => { parts.minor = rng.next() as u16; "minor-version" }
             11 => { parts.compression = 1 - parts.compression; if let Some(f) = parts.fields.iter_mut().find(|f| f.0 == 3) { f.1 = parts.compression.to_le_bytes().to_vec(); } "compression-flag-flipped" }
             12 => { let ih = parts.payload.len() - s.xml.len(); let depth = rng.range(50, 400) as usize; let mut x = String::from("<?xml version=\"1.0\"?><KeePassFile><Root>"); for _ in 0..depth { x.push_str("<Group><Name>n</Name>"); } for _ in 0..depth { x.push_str("</Group>"); } x.push_str("</Root></KeePassFile>"); parts.payload.truncate(ih); parts.payload.extend_from_slice(x.as_bytes()); "deep-groups" }
@@ -613,6 +660,68 @@ fn c06(args: &Args, agg: &mut Aggregate) {
         o
     });
     crate::legacy::c06_streams(agg, args);
+    // every kind of leaf element once per file: its text replaced by text of the SAME byte length that keeps
+    // the first character and contains a multi-byte character (value parsers that slice by byte offset)
+    run_cases(agg, args, "leaf-text", args.n(40, 400), |_i, rng, _model| {
+        let mut o = CaseOutcome::default();
+        let Some(base) = make_base(rng, false) else { o.violation = Some("save failed".into()); return o; };
+        let els = base.creds.elements();
+        let Ok(s) = strict::read(&base.bytes, &els) else { return o; };
+        let xml = &s.xml;
+        // (element name, text span) of every leaf element with text
+        let mut by_name: std::collections::BTreeMap<Vec<u8>, Vec<(usize, usize)>> = Default::default();
+        let mut i = 0;
+        while i < xml.len() {
+            if xml[i] == b'>' {
+                if let Some(j) = xml[i + 1..].iter().position(|&c| c == b'<') {
+                    let (st, en) = (i + 1, i + 1 + j);
+                    if en > st && en + 2 < xml.len() && xml[en + 1] == b'/' {
+                        let ne = xml[en + 2..].iter().position(|&c| c == b'>').map(|k| en + 2 + k).unwrap_or(xml.len());
+                        by_name.entry(xml[en + 2..ne].to_vec()).or_default().push((st, en));
+                    }
+                    i = en;
+                    continue;
+                }
+            }
+            i += 1;
+        }
+        o.input = format!("(leaf-text {} element kinds, document {} bytes)", by_name.len(), xml.len());
+        let mut tried = 0;
+        for (name, spans) in by_name.iter() {
+            let (st, en) = spans[rng.below(spans.len() as u64) as usize];
+            let orig = &xml[st..en];
+            let wide = *rng.pick(&["\u{e9}", "\u{20ac}", "\u{1F511}", "\u{661}", "\u{ff11}"]);
+            let target = if orig.len() >= 3 && rng.chance(3, 4) { orig.len() } else { rng.range(2, 9) as usize };
+            let mut t = String::new();
+            if orig[0].is_ascii_punctuation() || rng.chance(1, 2) { t.push(orig[0] as char); }
+            let at = rng.below(target as u64) as usize;
+            let mut placed = false;
+            while t.len() < target {
+                if !placed && t.len() >= at && t.len() + wide.len() <= target { t.push_str(wide); placed = true; }
+                else { t.push(*rng.pick(&['0', '1', 'a', 'F', '9'])); }
+            }
+            if !placed { continue; }
+            let mut x2 = xml[..st].to_vec();
+            x2.extend_from_slice(t.as_bytes());
+            x2.extend_from_slice(&xml[en..]);
+            let mut parts = Parts::of(&base.bytes, &s, &els);
+            let ih = parts.payload.len() - s.xml.len();
+            parts.payload.truncate(ih);
+            parts.payload.extend_from_slice(&x2);
+            let file = parts.build();
+            tried += 1;
+            match catch(|| Database::open(&mut &file[..], base.creds.key()).map(|_| ())) {
+                Err(p) => {
+                    o.violation = Some(format!("open panicked on an authenticated file whose <{}> text is {:?}: {}", String::from_utf8_lossy(name), t, p));
+                    o.violation_class = Some(panic_class(&p));
+                    o.input = format!("(leaf-text element {} text {:?})", String::from_utf8_lossy(name), t);
+                }
+                Ok(r) => { o.tags.push(format!("leaf:{}", match r { Ok(()) => "ok".to_string(), Err(e) => open_error_class(&e) })); }
+            }
+        }
+        o.nontrivial = tried > 10;
+        o
+    });
     // key files: structure-aware variation of XML key files (attributes, versions, payloads, nesting)
     run_cases(agg, args, "keyfile-structure", args.n(1_500, 15_000), |_i, rng, model| {
         let mut o = CaseOutcome::default();
@@ -663,7 +772,7 @@ fn c06(args: &Args, agg: &mut Aggregate) {
         o.nontrivial = true;
         o
     });
-    write_report(args, agg, "streams: corpus-damage (every repository sample file of all three formats: every kind of prefix, random byte damage, extreme 32-bit length words in the first 300 bytes, random bytes, prefix plus noise; open, get_xml, get_version and open with arbitrary key-file bytes, each under catch_unwind) and kdbx4-structure (saved files rebuilt WITH the key by an independent builder after a structure-aware mutation: missing/duplicate/unknown/short/long header fields, damaged KDF dictionary, damaged inner header, truncated XML, ill-typed element text incl. short and over-range base64 time stamps, no terminator block, flipped compression flag, deep group nesting, end-field content; result class compared with the model's decrypt4), kdb-structure (generated KDB content laid out by the independent KDB writer, damaged at record level - extreme and off-by-one size words, unknown types, truncation, wrong group/entry counts, removed/duplicated/swapped records, wrong widths of fixed-width fields, level jumps - and then authenticated: content hash and encryption redone; result compared with the extracted KDB reader) and kdbx3-structure (independent KDBX 3.1 writer: truncated/ill-typed XML, extreme block size words, missing final block, empty stream, payload cut inside a block header or the stream start bytes, wrong block hash; result class compared with the extracted KDBX 3.1 reader) and keyfile-structure (XML key files with varied versions, Hash attributes of every length and shape, hex/base64/other payloads, duplicated, nested, missing and unterminated elements; used through with_keyfile + open; verdict compared with the key model fed the xml-rs events); every case is non-trivial", serde_json::json!({}));
+    write_report(args, agg, "streams: corpus-damage (every repository sample file of all three formats: every kind of prefix, random byte damage, extreme 32-bit length words in the first 300 bytes, random bytes, prefix plus noise; open, get_xml, get_version and open with arbitrary key-file bytes, each under catch_unwind) and kdbx4-structure (saved files rebuilt WITH the key by an independent builder after a structure-aware mutation: missing/duplicate/unknown/short/long header fields, damaged KDF dictionary, damaged inner header, truncated XML, ill-typed element text incl. short and over-range base64 time stamps, no terminator block, flipped compression flag, deep group nesting, end-field content; result class compared with the model's decrypt4), kdb-structure (generated KDB content laid out by the independent KDB writer, damaged at record level - extreme and off-by-one size words, unknown types, truncation, wrong group/entry counts, removed/duplicated/swapped records, wrong widths of fixed-width fields, level jumps - and then authenticated: content hash and encryption redone; result compared with the extracted KDB reader) and kdbx3-structure (independent KDBX 3.1 writer: truncated/ill-typed XML, extreme block size words, missing final block, empty stream, payload cut inside a block header or the stream start bytes, wrong block hash; result class compared with the extracted KDBX 3.1 reader), leaf-text (for every kind of leaf element of a saved document, once per file: its text replaced by text of the same byte length that keeps the first character and contains a multi-byte character; the file re-authenticated and opened) and keyfile-structure (XML key files with varied versions, Hash attributes of every length and shape, hex/base64/other payloads, duplicated, nested, missing and unterminated elements; used through with_keyfile + open; verdict compared with the key model fed the xml-rs events); every case is non-trivial", serde_json::json!({}));
 }
 
 /// class of a panic message, for matching the known findings by site
@@ -696,6 +805,20 @@ fn c20(args: &Args, agg: &mut Aggregate) {
                 let relaid = text.replace("><", ">\n\t <!-- c -->\r\n<");
                 let k2 = make_key(base.creds.password.as_deref(), Some(relaid.as_bytes()));
                 if Database::open(&mut &base.bytes[..], k2).is_err() { o.violation = Some(format!("a {} key file laid out differently between its elements derives a different key", base.creds.kind)); }
+                // the same XML document in other byte forms: UTF-8 byte order mark, leading blank lines,
+                // a comment or a processing instruction before the root, another declaration
+                let body = if let Some(p) = text.find("?>") { text[p + 2..].to_string() } else { text.clone() };
+                let forms: Vec<(&str, Vec<u8>)> = vec![
+                    ("byte-order-mark", [&[0xEFu8, 0xBB, 0xBF][..], text.as_bytes()].concat()),
+                    ("leading-white-space", format!("\r\n \t{}", body).into_bytes()),
+                    ("comment-before-root", format!("<?xml version=\"1.0\"?><!-- key file -->{}", body).into_bytes()),
+                    ("no-declaration", body.clone().into_bytes()),
+                    ("standalone-declaration", format!("<?xml version=\"1.0\" encoding=\"UTF-8\" standalone=\"yes\"?>{}", body).into_bytes()),
+                ];
+                let (fname, fbytes) = &forms[rng.below(forms.len() as u64) as usize];
+                o.tags.push(format!("keyfile-form:{}", fname));
+                let k4 = make_key(base.creds.password.as_deref(), Some(fbytes));
+                if Database::open(&mut &base.bytes[..], k4).is_err() { o.violation = Some(format!("a {} key file written as the same XML document in another byte form ({}) derives a different key", base.creds.kind, fname)); }
             }
             let sched = crate::io_script::Schedule { script: crate::io_script::gen_script(rng, kf.len()), fail: None };
             let mut rd = crate::io_script::ScriptedReader::new(kf, &sched);
